@@ -63,6 +63,8 @@ class _NullFlow(object):
         self.origin = {}        # key -> alloc CallExpr node
         self.conjuncts = set()
         self.untracked = []     # allocation calls whose result is not bound to a trackable handle
+        self.null_returns = []  # reachable `return NULL` statements
+        self._null_ret_seen = set()
 
     # -- allocation sites inside a statement ----------------------------------
     def _alloc_assignments(self, stmt):
@@ -230,8 +232,18 @@ class _NullFlow(object):
                 self._ref(c.kids[1], True, st)
             else:
                 # !(a && b): if a is `h == NULL`, h is non-null *or* b is false
+                # the only accepted co-conjunct is `<parameter> > 0` / `!= 0` (zero-size request)
                 for i in (0, 1):
                     x = strip(c.kids[i], casts=True)
+                    other = strip(c.kids[1 - i], casts=True)
+                    okc = False
+                    if other is not None and other.kind == 'BinaryOperator' and other.op in ('>', '!='):
+                        a, b = strip(other.kids[0], casts=True), other.kids[1]
+                        from .ast import int_value
+                        if a.kind == 'DeclRefExpr' and a.refkind == 'ParmVarDecl' and int_value(b) == 0:
+                            okc = True
+                    if not okc:
+                        continue
                     tmp = dict(st)
                     self._ref(x, False, tmp)
                     for k in tmp:
@@ -263,6 +275,9 @@ class _NullFlow(object):
                     return state
                 return Edges({True: self._refine(node.ast, True, state), False: self._refine(node.ast, False, state)})
             stmt = node.ast
+            if stmt.kind == 'ReturnStmt' and stmt.kids and is_null(stmt.kids[0]) and stmt.uid not in self._null_ret_seen:
+                self._null_ret_seen.add(stmt.uid)
+                self.null_returns.append(stmt)
             allocs = self._alloc_assignments(stmt)
             skip = set(c.uid for _, c in allocs)
             bad, copies = self._uses(stmt, state, skip)
@@ -354,7 +369,7 @@ def safe_allocators(prog):
                 continue
             # every return of a tracked handle must be N or T, and at least one tracked return
             rets = [r for r in fl.returns]
-            if rets and all(st in (N, T) for (_, _, st) in rets):
+            if rets and all(st in (N, T) for (_, _, st) in rets) and not fl.null_returns:
                 safe[f.name] = dict(conjuncts=sorted(fl.conjuncts), sites=len(fl.sites))
                 changed = True
     return safe
